@@ -349,6 +349,29 @@ def product_step(cls):
     return tr(inner.body)
 
 
+# ---------------------------------------------------------------- comparisons
+
+def comparison_rows():
+    """(class, method, Comparison class built for a Number operand — must be `<C>(self, other)` —, fallback for any other operand)"""
+    rows = []
+    for cls in ('BQM', 'QM', 'VIEW'):
+        for name in ('__eq__', '__ge__', '__le__'):
+            fn = M[cls].get(name)
+            if fn is None:
+                continue
+            body = [st for st in fn.body if not (isinstance(st, ast.Expr) and isinstance(st.value, ast.Constant))]
+            if not (len(body) == 2 and isinstance(body[0], ast.If) and ast.unparse(body[0].test) == 'isinstance(other, Number)'
+                    and len(body[0].body) == 1 and isinstance(body[0].body[0], ast.Return) and not body[0].orelse
+                    and isinstance(body[1], ast.Return)):
+                die(f'{cls}.{name}: not of the shape `if isinstance(other, Number): return C(self, other)`; `return fallback`')
+            m = re.fullmatch(r'(Eq|Ge|Le)\(self, other\)', ast.unparse(body[0].body[0].value))
+            fb = {'NotImplemented': 'NotImplemented', 'self.is_equal(other)': 'is_equal'}.get(ast.unparse(body[1].value))
+            if not m or fb is None:
+                die(f'{cls}.{name}: unrecognised return values')
+            rows.append((cls, name, m.group(1), fb))
+    return rows
+
+
 A, B, Q = 'a', 'b', 'q'
 KINDS = {'bqm': 'BQM', 'qm': 'QM', 'view': 'VIEW', 'num': 'NUM'}
 
@@ -420,6 +443,10 @@ def main():
           'def qmMulStep (u v : Var) (acc : Model) : Except Err Model :=', '  ' + product_step('QM'), '',
           '/-- the body of the inner loop of `BinaryQuadraticModel.__mul__` (same-vartype branch), `selfvt` = `self.vartype` -/',
           'def bqmMulStep (selfvt : VT) (u v : Var) (acc : Model) : Except Err Model :=', '  ' + product_step('BQM'), '']
+    L += ['/-- `__eq__` / `__ge__` / `__le__` as defined by the classes: (class, method, `Comparison` class built from `(self, other)` for a',
+          '    Number operand, what is returned for any other operand).  A class without a row defines no such method (the expression views). -/',
+          'def comparisons : List (String × String × String × String) :=',
+          '  [' + ', '.join(f'("{c}", "{n}", "{k}", "{f}")' for c, n, k, f in comparison_rows()) + ']', '']
     nonin = [n for n, _d, ins, _r, ip in ps if ins is not None and not ip]
     L += ['/-- the bodies of all NON-in-place operator forms -/',
           'def nonInplace (a b : Nat) (q : Rat) (n : Nat) : List (List Instr) :=',
